@@ -16,8 +16,42 @@ TECHNIQUE = "static analysis: CFG guard/polarity rule with provenance of the tes
 
 PARSE = "mpd_protocol::response::ResponseBuilder::parse"
 INPROG = "mpd_protocol::response::ResponseBuilder::is_frame_in_progress"
-READS = {"mpd_protocol::connection::read_to_buffer", "tokio::io::util::async_read_ext::AsyncReadExt::read_buf",
-         "std::io::Read::read", "tokio::io::util::async_read_ext::AsyncReadExt::read"}
+READS_EXT = {"tokio::io::util::async_read_ext::AsyncReadExt::read_buf", "std::io::Read::read",
+             "tokio::io::util::async_read_ext::AsyncReadExt::read"}
+
+
+class _Reads:
+    """`n in READS`: a transport read, or a workspace function of the protocol crate that wraps one
+    (found by what it calls, not by its name)."""
+
+    def __init__(self):
+        self.cache = {}
+        self.prog = None
+
+    def bind(self, prog):
+        self.prog = prog
+        if id(prog) not in self.cache:
+            names = set(READS_EXT)
+            for b in prog.bodies.values():
+                if b.crate != "mpd_protocol" or b.kind not in ("Fn", "AssocFn"):
+                    continue
+                n = norm(b.name)
+                if n.rsplit("::", 1)[-1] in ("connect", "receive", "command", "command_list", "send", "send_list"):
+                    continue        # the connection operations themselves are not "a read"
+                for bb, t in b.calls():
+                    if any(x in READS_EXT for x in callee_names(t)):
+                        names.add(n)
+            self.cache[id(prog)] = names
+        return self
+
+    def __contains__(self, n):
+        return n in self.cache.get(id(self.prog), READS_EXT)
+
+    def __iter__(self):
+        return iter(self.cache.get(id(self.prog), READS_EXT))
+
+
+READS = _Reads()
 GREETING = "mpd_protocol::parser::greeting"
 
 
@@ -460,6 +494,7 @@ def run(rep, progs, tier):
     rep.rule("C10.deliver-first", "parse on buffered bytes dominates the read")
     rep.trusted = ["rustc MIR construction", "mpdfacts exporter", "BytesMut::is_empty/len semantics", "Read::read / read_buf return 0 only at EOF"]
     for cfg, prog in progs.items():
+        READS.bind(prog)
         receive_rule(rep, prog, cfg, "mpd_protocol::connection::Connection::receive", "blocking")
         connect_rule(rep, prog, cfg, "mpd_protocol::connection::Connection::connect", "blocking")
         if cfg != "K3":
